@@ -1,6 +1,7 @@
 package engine
 
 import (
+	"encoding/base64"
 	"encoding/json"
 	"fmt"
 	"net/http"
@@ -858,6 +859,91 @@ func (s *Session) httpQueries() bool {
 	return os.Getenv("VERIF_HTTP_QUERY") != "0" && s.Ad.Name() == "go" && !s.NoAt && s.Variant%3 == 0
 }
 
+// jsQueries: ask through the JavaScript helpers Query / PagedQuery / FindById (a javascript query posted to
+// POST /query), in the behaviours the HTTP variant does not take
+func (s *Session) jsQueries() bool {
+	return os.Getenv("VERIF_JS_QUERY") != "0" && s.Ad.Name() == "go" && !s.NoAt && s.Variant%3 == 1
+}
+
+func (s *Session) postJS(code string) ([]json.RawMessage, error) {
+	h, err := s.W.Web()
+	if err != nil {
+		return nil, err
+	}
+	raw, _ := json.Marshal(map[string]string{"query": base64.StdEncoding.EncodeToString([]byte(code))})
+	req := httptest.NewRequest(http.MethodPost, "/query", strings.NewReader(string(raw)))
+	req.Header.Set("Content-Type", "application/x-javascript-query")
+	rec := httptest.NewRecorder()
+	h.ServeHTTP(rec, req)
+	if rec.Code != 200 {
+		return nil, fmt.Errorf("POST /query (javascript): %d %s", rec.Code, rec.Body.String())
+	}
+	var elems []json.RawMessage
+	if err := json.Unmarshal(rec.Body.Bytes(), &elems); err != nil {
+		return nil, fmt.Errorf("POST /query (javascript): %w (%s)", err, rec.Body.String())
+	}
+	return elems, nil
+}
+
+func jsStrings(xs []string) string {
+	b, _ := json.Marshal(xs)
+	if xs == nil {
+		return "[]"
+	}
+	return string(b)
+}
+
+func (s *Session) jsLookup(uri string, scope []string) (*server.Entity, error) {
+	code := fmt.Sprintf(`function do_query() { var e = FindById(%q, %s); WriteQueryResult({found: e}); }`, uri, jsStrings(scope))
+	elems, err := s.postJS(code)
+	if err != nil || len(elems) != 1 {
+		return nil, err
+	}
+	var out struct {
+		Found *server.Entity `json:"found"`
+	}
+	if err := json.Unmarshal(elems[0], &out); err != nil {
+		return nil, err
+	}
+	return out.Found, nil
+}
+
+// jsRelated: pageSize 0 uses Query (one call), otherwise PagedQuery with that page size.
+func (s *Session) jsRelated(start, pred string, inv bool, scope []string, pageSize int) ([]RelOut, error) {
+	var code string
+	if pageSize == 0 {
+		code = fmt.Sprintf(`function do_query() {
+			var r = Query([%q], %q, %v, %s);
+			if (r == null) { return; }
+			for (var i = 0; i < r.length; i++) { WriteQueryResult({s: r[i][0], p: r[i][1], o: r[i][2]}); }
+		}`, start, pred, inv, jsStrings(scope))
+	} else {
+		code = fmt.Sprintf(`function do_query() {
+			PagedQuery({StartURIs: [%q], Via: %q, Inverse: %v, Datasets: %s}, %d, function(rs) {
+				for (var i = 0; i < rs.length; i++) { WriteQueryResult({s: rs[i].StartURI, p: rs[i].PredicateURI, o: rs[i].RelatedEntity}); }
+				return true;
+			});
+		}`, start, pred, inv, jsStrings(scope), pageSize)
+	}
+	elems, err := s.postJS(code)
+	if err != nil {
+		return nil, err
+	}
+	var out []RelOut
+	for _, raw := range elems {
+		var row struct {
+			S string         `json:"s"`
+			P string         `json:"p"`
+			O *server.Entity `json:"o"`
+		}
+		if err := json.Unmarshal(raw, &row); err != nil {
+			return nil, err
+		}
+		out = append(out, RelOut{Start: row.S, Pred: row.P, Other: row.O})
+	}
+	return out, nil
+}
+
 func (s *Session) postQuery(body map[string]any) ([]json.RawMessage, error) {
 	h, err := s.W.Web()
 	if err != nil {
@@ -1070,6 +1156,14 @@ func (s *Session) checkLookups(o *Obs) error {
 					}
 					got = append(got, ent)
 					how = append(how, "now")
+					if s.jsQueries() {
+						jent, jerr := s.jsLookup(s.EntURI(e), s.scopeReal(sc))
+						if jerr != nil {
+							return jerr
+						}
+						got = append(got, jent)
+						how = append(how, "js FindById")
+					}
 					if s.httpQueries() {
 						hent, herr := s.httpLookup(s.EntURI(e), s.scopeReal(sc))
 						if herr != nil {
@@ -1194,6 +1288,13 @@ func (s *Session) checkRelated(o *Obs) error {
 								}
 							}
 						}
+						if t == o.Clock {
+							// the same question with the start and the predicate written as CURIEs
+							runs = append(runs, run{"now,curie", 0, -2})
+						}
+						if t == o.Clock && s.jsQueries() {
+							runs = append(runs, run{"js Query", 0, -3}, run{"js PagedQuery,pagesize=1", 1, -3})
+						}
 						if t == o.Clock && s.httpQueries() {
 							runs = append(runs, run{"POST /query", 0, -1})
 							for _, l := range s.H.Limits {
@@ -1207,6 +1308,16 @@ func (s *Session) checkRelated(o *Obs) error {
 							var err error
 							if r.at == -1 {
 								rels, err = s.httpRelated(s.EntURI(start), predArg, inv, s.scopeReal(sc), r.limit)
+								r.at = 0
+							} else if r.at == -3 {
+								rels, err = s.jsRelated(s.EntURI(start), predArg, inv, s.scopeReal(sc), r.limit)
+								r.at, r.limit = 0, 0
+							} else if r.at == -2 {
+								pc := "*"
+								if p != "*" {
+									pc = s.PredCurie(p)
+								}
+								rels, err = s.Ad.Related(s, []string{s.EntCurie(start)}, pc, inv, s.scopeReal(sc), 0, 0)
 								r.at = 0
 							} else {
 								rels, err = s.Ad.Related(s, []string{s.EntURI(start)}, predArg, inv, s.scopeReal(sc), r.limit, r.at)
